@@ -184,18 +184,19 @@ func indexOf(ss []string, s string) int {
 }
 
 type trace struct {
-	Frame    *gen.FrameSpec `json:"frame"`
-	Scramble gen.Scramble   `json:"scramble"`
-	Keys     []string       `json:"keys"`
-	Null     bool           `json:"group_null"`
-	Hash     flavour        `json:"hash"`
-	RandSeed int64          `json:"rand_seed"`
-	ViaCSV   bool           `json:"frame_rebuilt_by_ReadCSV,omitempty"`
-	Op       string         `json:"op"`
-	Source   *obs.Frame     `json:"source,omitempty"`
-	Model    [][]int        `json:"model_classes,omitempty"`
-	Got      interface{}    `json:"got,omitempty"`
-	Detail   string         `json:"detail,omitempty"`
+	Frame     *gen.FrameSpec `json:"frame"`
+	Scramble  gen.Scramble   `json:"scramble"`
+	Keys      []string       `json:"keys"`
+	Null      bool           `json:"group_null"`
+	NullFirst bool           `json:"null_option_before_columns,omitempty"`
+	Hash      flavour        `json:"hash"`
+	RandSeed  int64          `json:"rand_seed"`
+	ViaCSV    bool           `json:"frame_rebuilt_by_ReadCSV,omitempty"`
+	Op        string         `json:"op"`
+	Source    *obs.Frame     `json:"source,omitempty"`
+	Model     [][]int        `json:"model_classes,omitempty"`
+	Got       interface{}    `json:"got,omitempty"`
+	Detail    string         `json:"detail,omitempty"`
 }
 
 func classesOf(cs []*class) [][]int {
@@ -479,6 +480,7 @@ func run(t *rapid.T, prop string) {
 		}
 	}
 	tr.Null = rapid.Bool().Draw(t, "groupnull")
+	tr.NullFirst = rapid.Bool().Draw(t, "nullfirst")
 	tr.Hash = drawFlavour(t)
 	tr.RandSeed = rapid.Int64().Draw(t, "randseed")
 	viaCSV := rapid.IntRange(0, 5).Draw(t, "viacsv")
@@ -532,7 +534,11 @@ func run(t *rapid.T, prop string) {
 	}
 }
 
+// opts: the options in either order (each sets what it is about, nothing else).
 func opts(tr *trace) []groupby.ConfigFunc {
+	if tr.NullFirst {
+		return []groupby.ConfigFunc{groupby.Null(tr.Null), groupby.Columns(tr.Keys...)}
+	}
 	return []groupby.ConfigFunc{groupby.Columns(tr.Keys...), groupby.Null(tr.Null)}
 }
 
